@@ -287,6 +287,7 @@ FEATURE_ARGS = {
     'metric': {},
     'span': {'span': 'line'},
     'capture': {'stage': 'line_capture'},
+    'register': {},        # (not a tracepoint argument: the step also registers a tracepoint in code, and removes it)
 }
 
 
@@ -447,6 +448,10 @@ def ambient_leg(c, rng, wd, nruns):
                     rg.install([tp, second])
                     res = rg.run(mod.work, 5, only_file=path)
                     created += 1
+                    if 'register' in what:
+                        # the application uses the registration API around its work: that is the agent's doing as well
+                        rid = rg.register({'path': base, 'line': marks['work'], 'args': {'fire_count': '1'}})
+                        rg.tps.remove_custom(rid)
                     if res != ('ok', 8) or rg.escaped:
                         raise tlc.MachineryError('ambient host run: %r %r' % (res, rg.escaped))
                     rec = {'ev': 'agent', 'features': list(what)}
@@ -608,6 +613,9 @@ def run(c):
     # (always: a snapshot taken inside a method that uses zero-argument super() - its frame holds the __class__ cell -
     # and the method called again afterwards)
     cell = [([dict(id=1, kind='line', file='a', line='ktag', span='none'), dict(id=2, kind='line', file='a', line='kf_last', span='none')],
+             [[('a.kf', [('line',), ('call', 'a.kf', [])])], [('a.kf', [])]]),
+            # ... and inside a classmethod that uses it (no `self` in the frame)
+            ([dict(id=1, kind='line', file='a', line='kctag', span='none')],
              [[('a.kf', [('line',), ('call', 'a.kf', [])])], [('a.kf', [])]])]
     traces, meta = c03.run_scenarios(c, rng, wd, 40 if quick else 6000, 0.5, 'differential', 'd', curated=cell)
     c03.validate(c, traces, meta, lambda m: m['firings'] >= 3)
